@@ -138,6 +138,11 @@ pub enum Auth {
     /// both attributes: MESSAGE-INTEGRITY under another key, MESSAGE-INTEGRITY-SHA256 right under the
     /// key (only the key holder can make this): either answer is admissible
     MixedSha256Good(u8),
+    /// MESSAGE-INTEGRITY under the key, but computed over the header carrying the final on-the-wire
+    /// length (a known signer mistake), followed by a correct FINGERPRINT: not a valid integrity
+    Sha1WireLenFp(u8),
+    /// the same mistake with MESSAGE-INTEGRITY-SHA256
+    Sha256WireLenFp(u8),
 }
 
 #[derive(Clone, Copy, Debug, Serialize, Deserialize, PartialEq, Eq, Hash, PartialOrd, Ord)]
@@ -299,6 +304,15 @@ pub fn response_wire(id: u8, class: u8, auth: Auth) -> Vec<u8> {
         Auth::MixedSha256Good(k) => {
             wire::append_mi(&mut b, b"somebody else's key");
             wire::append_mi256(&mut b, &key_bytes(k), 32);
+        }
+        Auth::Sha1WireLenFp(k) | Auth::Sha256WireLenFp(k) => {
+            let sha1 = matches!(auth, Auth::Sha1WireLenFp(_));
+            let alen = if sha1 { 24 } else { 36 };
+            let mut pre = b.clone();
+            wire::set_len(&mut pre, b.len() - 20 + alen + 8);
+            let h: Vec<u8> = if sha1 { crate::refimpl::crypto::hmac_sha1(&key_bytes(k), &pre).to_vec() } else { crate::refimpl::crypto::hmac_sha256(&key_bytes(k), &pre).to_vec() };
+            wire::append_raw(&mut b, if sha1 { wire::MI } else { wire::MI256 }, &h);
+            wire::append_fp(&mut b);
         }
         Auth::Sha256Trunc(k) => wire::append_mi256(&mut b, &key_bytes(k), 16),
         Auth::Sha256Flipped(k) => {
